@@ -2,6 +2,6 @@
 # tools/seedtest.sh <patch.diff> <Cxx>... : apply a seeded change to /repo, run the checks, undo.
 P=$1; shift
 git -C /repo apply "$P" || { echo "patch does not apply"; exit 2; }
-for c in "$@"; do (cd /verif && ./check $c 2>&1 | grep -E "^(C[0-9]+ \[|VIOLATION|KNOWN)" ); done
+for c in "$@"; do (cd /verif && VERIF_OUT=/tmp/seedtest-out ./check $c 2>&1 | grep -E "^(C[0-9]+ \[|VIOLATION|KNOWN)" ); done
 git -C /repo checkout -- .
 git -C /repo status --short | grep -v '^??' | head -3
